@@ -77,8 +77,23 @@ Definition in_domain (sc : sys_scenario) : bool :=
      end
   && (rep_total ca <=? t_cyclic ca).
 
+(* Finding F16: SOME/IP-SD detects reboots per sender AND per channel.  A watcher that has heard the offerer only by
+   unicast (the answer to its FindService) has no multicast history of it: when the offerer crashes before its next
+   multicast offer and restarts, its first messages are first contacts on the multicast channel and carry no reboot
+   evidence the watcher can see.  With an infinite subscription TTL and no refresh the watcher never subscribes again. *)
+Definition f16_pattern (sc : sys_scenario) (tra : trace) : bool :=
+  let cb := nd_cfg (ss_b sc) in
+  let sa := node_state sc false in
+  let sb := node_state sc true in
+  (t_subscribe_ttl cb =? TTL_FOREVER) && match t_refresh cb with None => true | Some _ => false end
+  && (ns_since sb <? ns_since sa)
+  && negb (existsb (fun p => match snd p with
+                             | ESent None _ => (ns_since sb <=? fst p + ss_latency sc + 1) && (fst p <? ns_since sa)
+                             | _ => false
+                             end) tra).
+
 (* codes: 1 watcher view wrong after the bound, 2 watcher view still changing after the bound, 3 server view wrong,
-   4 server view still changing, 90 not judged (outside the domain or the run ends before the bound) *)
+   4 server view still changing, 16 = code 3 under the F16 pattern, 90 not judged (outside the domain or the run ends before the bound) *)
 Definition check_C04 (sc : sys_scenario) (tra trb : trace) : list N :=
   let sa := node_state sc false in
   let sb := node_state sc true in
@@ -92,5 +107,5 @@ Definition check_C04 (sc : sys_scenario) (tra trb : trace) : list N :=
      (if Bool.eqb (view_now wv) offering then [] else [1]) ++ (if changes_after d wv then [2] else [])
    else [])
   ++ (if ns_alive sa then
-        (if Bool.eqb (view_now sv) (offering && watching) then [] else [3]) ++ (if changes_after d sv then [4] else [])
+        (if Bool.eqb (view_now sv) (offering && watching) then [] else [if f16_pattern sc tra then 16 else 3]) ++ (if changes_after d sv then [4] else [])
       else []).
